@@ -210,7 +210,7 @@ def run(ctx: Context) -> None:
     ctx.rule("C11a", "no reachable randomness draw reads process-global RNG state; no reachable code writes it")
     ctx.rule("C11b", "in every use_dask split both arms call the same generator with the same per-shot seed expression over the same range")
     ctx.rule("C11c", "no callable flowing into a dask.delayed region draws from a generator shared between shots")
-    ctx.rule("C11d", "parallel loops write only loop-locals, induction-indexed elements or whole-variable reductions; the last job takes the remainder")
+    ctx.rule("C11d", "parallel loops write only loop-locals, induction-indexed elements or whole-variable reductions; the jobs of the native permanent tile the Gray-code range exactly for every job count (S(0)=0, E(K-1)=M-1, S(j+1)=E(j)+1, proved by case split on the comparisons)")
     ctx.rule("C11e", "memoised results are never written in place")
     ctx.rule("C11f", "no object that the shots of a dask.delayed region share (bound once by partial(...), or a free variable of the per-shot closure) is written in place by the per-shot callable")
     pv = Provenance(idx, res)
